@@ -1,5 +1,6 @@
 from nusym.runner import Check
 from . import propfam
+from . import solvefam
 
 CHECKS = {}
 
@@ -40,7 +41,22 @@ def c07(tier, seed, only):
     n_ent = sum(r["counts"].get("status:2", 0) for r in chk.runs)
     chk.require("C07", n_ent > 0, "no path answered ENTAILMENT")
     chk.extra_cov["entailment_paths"] = n_ent
-    return chk.finish({"prop": batch})
+    # engine level: the flag rows through push / pop / restart.  On entry of every consistency pass of whole runs (enumeration and
+    # optimisation, which re-arms the root level between two iterations) each disabled constraint is entailed by the current box
+    d = solvefam.Deferred(chk)
+    ent_models = ["lt", "geq_leq", "max_leq_min_geq", "obj_under_leq", "shared_offset_lt", "alldiff_lt", "count", "element_iv", "relation", "exactly", "and_true", "lex", "restart2", "restart3"]
+    for name in ent_models:
+        if only and name not in only:
+            continue
+        d.add(["C07"], [(name, {}), (name, dict(domh="max")), (name, dict(domh="mid", varh="smallest"))])
+        for obj in _objectives(name):
+            for mode in ("minimize", "maximize"):
+                d.add(["C07"], [(name, {}), (name, dict(domh="max"))], mode=mode, objective=obj)
+    batch2 = d.run()
+    n_dis = sum(r["counts"].get("disabled-constraint-checked", 0) for r in chk.runs)
+    chk.require("C07", n_dis > 0 or bool(only), "no consistency pass was entered with a disabled constraint")
+    chk.extra_cov["disabled_constraints_checked_at_pass_entry"] = n_dis
+    return chk.finish({"prop": batch, "solve": batch2})
 
 
 HEUR_ASSUMPTIONS = [
@@ -197,7 +213,7 @@ def c19(tier, seed, only):
 
 from . import solvefam  # noqa: E402
 
-OPT_MODELS = ["lt", "sum_eq", "alldiff3", "max_eq", "obj_under_leq", "obj_shared_offset", "free2", "shared_twice", "dummy_only", "geq_leq", "count", "relation", "element_iv", "noncoprime_eq"]
+OPT_MODELS = ["lt", "sum_eq", "alldiff3", "max_eq", "obj_under_leq", "obj_shared_offset", "free2", "restart2", "shared_twice", "dummy_only", "geq_leq", "count", "relation", "element_iv", "noncoprime_eq", "restart3"]
 
 
 def _objectives(name):
@@ -216,7 +232,7 @@ def c01(tier, seed, only):
         if only and name not in only:
             continue
         for mode in ("minimize", "maximize"):
-            d.add(["C01"], [(name, {})], mode=mode, objective=0)
+            d.add(["C01", "C07"], [(name, {})], mode=mode, objective=0)
         d.add(["C01"], [(name, {})], mode="solve_q")
     batch = d.run()
     chk.assumptions.append("multiprocessing solver: the worker entry points are run against a collecting queue here; that the parent yields exactly the workers' messages is C11")
@@ -229,7 +245,7 @@ def c02(tier, seed, only):
 
     chk = Check("C02", tier, seed)
     runs = solvefam.plan(tier, seed, models=only)
-    d = solvefam.Deferred(chk).add(["C02"], runs)
+    d = solvefam.Deferred(chk).add(["C02", "C01"], runs)
     # every order in which the constraints were posted
     import itertools
 
@@ -239,7 +255,7 @@ def c02(tier, seed, only):
         n = len(md["props"])
         if n >= 2:
             for order in list(itertools.permutations(range(n)))[1:]:
-                d.add(["C02"], [(name, {})], order=list(order))
+                d.add(["C02", "C01"], [(name, {})], order=list(order))
     batch = d.run()
     chk.assumptions.append("'the same multiset for every configuration and posting order' holds because every run is compared with the same semantic set {x in box | all documented relations hold} by a z3 query (exactly once + complete)")
     return chk.finish({"solve": batch})
@@ -261,7 +277,7 @@ def c03(tier, seed, only):
                     cfgs.append(pw[k % len(pw)])
                     k += 1
                 for cfg in cfgs:
-                    d.add(["C03", "C01"], [(name, cfg)], mode=mode, objective=obj)
+                    d.add(["C03", "C01", "C07"], [(name, cfg)], mode=mode, objective=obj)
         d.add(["C03", "C01", "C11"], [(name, {})], mode="minimize_q", objective=0)
         d.add(["C03", "C01", "C11"], [(name, {})], mode="maximize_q", objective=len(list(_objectives(name))) - 1)
     batch = d.run()
